@@ -101,31 +101,15 @@ theorem Final.parent_iff (hf : Final g A order s) (h : WF g rank) (ho : OrderOK 
       have := hf.pre.complete w (worker?_of_mem h.nodup hw) (ho.all w hw) hp
       exact ⟨(_, _), mem_of_aget this, by simp⟩
 
-/-- `assert children, 'Not acyclic'` holds -/
-theorem Final.leaves_ne_nil (hf : Final g A order s) (h : WF g rank) (ho : OrderOK g order) (hl : g.linked A = true) :
-    s.leaves ≠ [] := by
-  -- some key exists
-  have hK : s.absolute.map (·.1) ++ s.prefixed.map (·.1) ≠ [] := by
-    simp only [linked, Bool.or_eq_true, Bool.not_eq_eq_eq_not, Bool.not_true, List.isEmpty_eq_false_iff,
-      List.any_eq_true] at hl
-    rcases hl with hne | ⟨w, hw, hp⟩
-    · obtain ⟨e, he⟩ := List.exists_mem_of_ne_nil _ hne
-      have hs := (hf.slot_uid h ho e.sub e.subPort.index (g.portKey e)).mpr ⟨e, he, rfl, rfl, rfl⟩
-      intro hnil
-      have hk : Key.uid e.sub ∉ s.absolute.map (·.1) := by
-        intro hm
-        have : Key.uid e.sub ∈ s.absolute.map (·.1) ++ s.prefixed.map (·.1) := List.mem_append_left _ hm
-        rw [hnil] at this; cases this
-      rw [← aget_none_iff] at hk
-      simp [slot, hk] at hs
-    · have := hf.pre.complete w (worker?_of_mem h.nodup hw) (ho.all w hw) hp
-      intro hnil
-      have hk : Key.uid w.uid ∉ s.prefixed.map (·.1) := by
-        intro hm
-        have : Key.uid w.uid ∈ s.absolute.map (·.1) ++ s.prefixed.map (·.1) := List.mem_append_right _ hm
-        rw [hnil] at this; cases this
-      rw [← aget_none_iff] at hk
-      rw [hk] at this; cases this
+/-- `assert children or not parents, 'Not acyclic'` holds: with at least one linkage key the highest ranked key is a
+leaf; without any key nothing is anybody's argument -/
+theorem Final.leaves_ok (hf : Final g A order s) (h : WF g rank) (ho : OrderOK g order) :
+    s.leaves ≠ [] ∨ s.parents = [] := by
+  by_cases hK : s.absolute.map (·.1) ++ s.prefixed.map (·.1) = []
+  · right
+    simp only [List.append_eq_nil_iff, List.map_eq_nil_iff] at hK
+    simp [CState.parents, hK.1, hK.2]
+  left
   obtain ⟨k, hk, hmax⟩ := exists_max (g.keyRank rank) _ hK
   -- the highest ranked key is nobody's argument
   intro hnil
